@@ -935,3 +935,11 @@ Proof.
   rewrite Hp in H. simpl in H. specialize (H eq_refl eq_refl).
   repeat (destruct H as [H|H]; [discriminate|]). contradiction.
 Qed.
+
+Theorem disc_union_dispatch E cs sb sp t v kvs n :
+  lookup_tag E false (discu_variants E cs sb sp) t = Some v -> c_disc (cls E v) = None ->
+  unpack E (WDict (Some t) kvs) (TDiscU cs true sb sp) n = unpack E (WDict (Some t) kvs) (TDc v) n.
+Proof.
+  intros Hl Hv. rewrite unpack_TDiscU, unpack_TDc.
+  unfold dispatch, tag_of. rewrite Hl. reflexivity.
+Qed.
